@@ -92,6 +92,7 @@ func c07GenExact() *rapid.Generator[c07ExactCase] {
 		// simulated state (assumes every generated op is accepted; over-counts otherwise, which is the safe side)
 		var live, reusable []string // reusable: ids of deleted vectors that may be added again
 		deadNodes := 0              // soft-deleted nodes not yet vacuumed
+		hasSnap, delsSinceSnap := false, 0
 		var vecs [][]float32
 		next := 0
 		newID := func() string {
@@ -146,6 +147,7 @@ func c07GenExact() *rapid.Generator[c07ExactCase] {
 				live = append(live[:i:i], live[i+1:]...)
 				reusable = append(reusable, id)
 				deadNodes++
+				delsSinceSnap++
 				c.Ops = append(c.Ops, c07Op{K: "del", ID: id})
 			case w < 70:
 				deadNodes = 0
@@ -159,10 +161,17 @@ func c07GenExact() *rapid.Generator[c07ExactCase] {
 				}
 				prec = to
 				deadNodes = 0
+				hasSnap, delsSinceSnap = true, 0
 				c.Ops = append(c.Ops, c07Op{K: "compress", To: to})
 			case w < 84:
+				hasSnap, delsSinceSnap = true, 0
 				c.Ops = append(c.Ops, c07Op{K: "snapshot"})
 			case w < 88:
+				// vacuum is not journaled: recovery from a snapshot brings back, as soft-deleted nodes, the
+				// snapshot's vectors that the log tail deletes
+				if hasSnap && delsSinceSnap > deadNodes {
+					deadNodes = delsSinceSnap
+				}
 				c.Ops = append(c.Ops, c07Op{K: "restart"})
 			default:
 				c.Ops = append(c.Ops, query())
@@ -263,7 +272,8 @@ func (r *c07xRun) beforeInsert(kind string, n int) string {
 		return "harness: " + err.Error()
 	}
 	if g.Live+g.Dead+n > 2*r.c.Cfg.M {
-		return fmt.Sprintf("harness: generated case leaves the 2*M regime (%d live + %d deleted + %d new > %d)", g.Live, g.Dead, n, 2*r.c.Cfg.M)
+		r.unjustify(fmt.Sprintf("graph grows beyond 2*M nodes (%d live + %d deleted + %d new > %d)", g.Live, g.Dead, n, 2*r.c.Cfg.M))
+		r.labels["beyond-2M"] = true
 	}
 	if g.Live+g.Dead+n > r.limit() {
 		r.unjustify(fmt.Sprintf("graph grows to %d nodes > efConstruction=%d: an insert links to at most efConstruction candidates", g.Live+g.Dead+n, r.c.Cfg.EfC))
